@@ -8,7 +8,7 @@ def run(ctx):
     T = ctx.thorough
     # 1. the design satisfies the property (TLC, all deviation switches off)
     wl.tlc_design(ctx, "Wallet_design.cfg", import_ids=[1, 2], new_ids=[3], labels=["", "x", "y"] if T else ["", "x"],
-                  wscrypt="low", max_obj=3, max_ops=6 if T else 5, acts=wl.ALL_ACTS)
+                  wscrypt="low", max_obj=3, max_ops=6 if T else 5, acts=wl.ALL_ACTS + wl.FAULTS)
     npaths = nsteps = 0
     runs = []
     if dev is not None:
@@ -18,10 +18,10 @@ def run(ctx):
         #    A: importable accounts, every operation except NewAccount (NewAccount costs a default-strength scrypt)
         runs.append(("A", dict(import_ids=[1, 2, 3] if T else [1, 2], new_ids=[], labels=["", "x"], wscrypt="low",
                                max_obj=(4 if T else 3) if dup else (3 if T else 2),
-                               max_ops=4, acts=[a for a in wl.ALL_ACTS if a != "New"]), None, True))
+                               max_ops=4, acts=[a for a in wl.ALL_ACTS if a != "New"] + wl.FAULTS), None, True))
         #    B: NewAccount next to an imported account
         runs.append(("B", dict(import_ids=[1], new_ids=[2], labels=["", "x"], wscrypt="low", max_obj=3 if dup else 2,
-                               max_ops=4 if T else 3, acts=[a for a in wl.ALL_ACTS if T or a not in ("ChangeScheme", "SetDefault")]),
+                               max_ops=4 if T else 3, acts=[a for a in wl.ALL_ACTS if T or a not in ("ChangeScheme", "SetDefault")] + (wl.FAULTS if T else [])),
                      None, True))
         #    C: a wallet with the library's default parameters (every decryption costs a full scrypt)
         runs.append(("C", dict(import_ids=[1], new_ids=[2], labels=[""], wscrypt="def", max_obj=2,
@@ -30,7 +30,7 @@ def run(ctx):
                      None, False))
         #    D: long random behaviours (TLC -simulate, seeded) over three labels
         runs.append(("D", dict(import_ids=[1, 2, 3], new_ids=[], labels=["", "x", "y"], wscrypt="low", max_obj=4 if dup else 3,
-                               max_ops=1000, acts=[a for a in wl.ALL_ACTS if a != "New"]),
+                               max_ops=1000, acts=[a for a in wl.ALL_ACTS if a != "New"] + wl.FAULTS),
                      ("num=%d" % (600 if T else 150), 40), True))
         for tag, kw, sim, opens_live in runs:
             mc = wl.tlc_asis(ctx, "Wallet_asis_%s.cfg" % tag, dev, simulate=sim[0] if sim else None, depth=sim[1] if sim else None, **kw)
@@ -52,5 +52,5 @@ def run(ctx):
         "deviations_probed": dev, "runs": [{"run": t, **{k: v for k, v in kw.items()}} for t, kw, _, _ in runs],
         "exhaustive": True,
     }, ["ECDSA P-256 accounts; scrypt N=16,r=1,p=1 stands for a wallet with its own (non-default) parameters; run C uses the library default",
-        "save() never fails (no I/O errors injected)",
+        "save() failures are injected by making <wallet>~ a directory (SetFault/ClearFault); other I/O faults (torn writes, rename failure) are not",
         "imported accounts are encrypted under the wallet's scrypt parameters (what `account import` checks)"])
